@@ -461,12 +461,15 @@ Definition sami_styles (st : store) (s : val) (log : fp) : store * fp :=
               (items_of st (field st s (VInt 2))) (st, log)
   else (st, log).
 
-(* Single positioning: after deepcopy + merge, every layout slot := the writer's default_positioning object
-   (an object that exists before the call: instance state / module constant, location `posv`), text-align popped.
+(* Single positioning: after deepcopy + merge, every layout slot := default_positioning, text-align popped.
+   The real writer installs its default_positioning OBJECT (instance state, or the module constant) in its private
+   copy of the set; the model installs a private Layout with the same code - the copy is discarded after the call
+   and Layout objects are never assigned to, so no observation can tell the two apart.
    The log lists only assignments to objects that the deepcopy produced (the merged Caption / CaptionList objects
    are created after it; the observer on the real heap cannot see them either). *)
-Definition single_assign (st : store) (s : val) (posv : val) (log : fp) : store * fp :=
-  let st1 := set_field st s (VInt 3) posv in
+Definition single_assign (st : store) (s : val) (pc : Z) (log : fp) : store * fp :=
+  let (st0, posv) := new_obj st KLayout [(VInt 1, VInt pc); (VInt 2, VNone)] in
+  let st1 := set_field st0 s (VInt 3) posv in
   let '(st2, lg2) :=
     fold_left (fun (acc : store * fp) kv =>
                  let (s0, lg) := acc in
@@ -504,8 +507,7 @@ Definition entry_inst (c : cfg) (k : Z) (i : winst) : winst :=
 
 Definition keys_of (l : list (tree * tree)) : list tree := map fst l.
 
-(* posv: location of the SinglePositioning writer's default_positioning object (pre-existing), VNone otherwise *)
-Definition write (c : cfg) (k : Z) (o : wopts) (posv : val) (i : winst) (st : store) (s : val) : wres :=
+Definition write (c : cfg) (k : Z) (o : wopts) (i : winst) (st : store) (s : val) : wres :=
   let i0 := entry_inst c k i in
   if ((k =? W_VTT) || (k =? W_SCC)) && is_empty_set st s then
     (* `if caption_set.is_empty(): return output` before the copy *)
@@ -553,7 +555,7 @@ Definition write (c : cfg) (k : Z) (o : wopts) (posv : val) (i : winst) (st : st
         mkWres st3 (mkWinst (p_open p) (wi_last i0) (wi_ref i0)) (Ok (mkOut (p_tokens p) t)) lg3 1
       else if k =? W_SINGLE then
         let (st2, lg) := merge_all st1 s1 [] in
-        let (st3, lg3) := single_assign st2 s1 posv lg in
+        let (st3, lg3) := single_assign st2 s1 (match wo_pos o with Some pc => pc | None => 0 end) lg in
         (* DFXPWriter.write on the positioned copy: a second deepcopy, then the DFXP assignments *)
         match deepcopy FUEL st3 s1 with
         | None => mkWres st3 i0 (Err EOutOfFuel) lg3 1
@@ -718,7 +720,7 @@ Record world := mkWorld {
   w_st : store;
   w_sets : list val;
   w_readers : list (nat * rinst);
-  w_writers : list (nat * (winst * val))     (* instance state, location of default_positioning *)
+  w_writers : list (nat * winst)
 }.
 
 Definition world0 : world := mkWorld store0 [] [] [].
@@ -797,19 +799,9 @@ Definition step (c : cfg) (w : world) (o : op) : world * mobs :=
       match nth_error (w_sets w) si with
       | None => (w, mobs0)
       | Some s =>
-          (* first use constructs the writer; a SinglePositioning writer owns its default_positioning object *)
-          let '(st0, (wi, posv)) :=
-            match lookup wid (w_writers w) with
-            | Some x => (w_st w, x)
-            | None =>
-                match wo_pos wo with
-                | Some pc => let (st', l) := new_obj (w_st w) KLayout [(VInt 1, VInt pc); (VInt 2, VNone)] in
-                             (st', (winst0, l))
-                | None => (w_st w, (winst0, VNone))
-                end
-            end in
-          let r := write c k wo posv wi st0 s in
-          (mkWorld (wr_store r) (w_sets w) (w_readers w) (set_assoc wid (wr_inst r, posv) (w_writers w)),
+          let wi := match lookup wid (w_writers w) with Some x => x | None => winst0 end in
+          let r := write c k wo wi (w_st w) s in
+          (mkWorld (wr_store r) (w_sets w) (w_readers w) (set_assoc wid (wr_inst r) (w_writers w)),
            mkMobs (match wr_result r with Ok _ => 0 | Err e => err_code e end)
                   (match wr_result r with Ok x => out_tokens x | Err _ => [] end)
                   (wi_open (wr_inst r)) (wr_fp r) (wr_copies r) (changed_below O (w_st w) (wr_store r)) [] [] false)
